@@ -274,7 +274,8 @@ def c11_nested_own_names():
   set_state, itr, ...) avoid that function's own parameters and locals, also when those are used only outside the block."""
   import malt
   roles = []
-  for name in ('if_body', 'else_body', 'get_state', 'set_state', 'loop_body', 'loop_test', 'extra_test', 'itr'):
+  for name in ('if_body', 'else_body', 'get_state', 'set_state', 'loop_body', 'loop_test', 'extra_test', 'itr',
+               'do_return', 'retval_', 'break_', 'continue_'):
     roles.append(('param', name, '''
 def f(x):
   def inner(y, %(n)s):
@@ -289,6 +290,11 @@ def f(x):
       y = y + i
       if y > 100:
         break
+      if y > 50:
+        continue
+      y = y + 1
+    if y > 1000:
+      return None
     return (y, k, %(n)s)
   return inner(x, 'user value')
 ''' % dict(n=name)))
@@ -307,6 +313,11 @@ def f(x):
       y = y + i
       if y > 100:
         break
+      if y > 50:
+        continue
+      y = y + 1
+    if y > 1000:
+      return None
     return (y, k, %(n)s)
   return inner(x)
 ''' % dict(n=name)))
@@ -362,6 +373,210 @@ def f(a, b=1, c=2, *args, k=3, m=4, **kw):
       ids[id(n)] = n
   if g(1) != m.f(1) or g(0, 5, k=9) != m.f(0, 5, k=9):
     return 'converted function with several defaults differs from the original'
+
+
+@witness('C01-return-in-try-whose-handler-falls-through', ['C01'])
+def c01_try_return_handler_falls_through():
+  """An `if` whose body ends in try/except with a return in the try body (or try-else) and a handler that falls
+  through: the statements after the if still run when the handled exception is raised."""
+  return _same('''
+def f(c, bad):
+  log = []
+  if c:
+    try:
+      log.append('try')
+      if bad:
+        raise ValueError('bad')
+      return ('ret-try', log)
+    except ValueError:
+      log.append('handler')
+  log.append('tail')
+  if c:
+    try:
+      if bad:
+        raise KeyError('k')
+    except KeyError:
+      log.append('handler2')
+    else:
+      return ('ret-else', log)
+  log.append('tail2')
+  return (2, log)
+''', 'c01try', [(True, True), (True, False), (False, False), (False, True)])
+
+
+@witness('C06-raise-reaches-the-outer-handler', ['C06', 'C05'])
+def c06_raise_outer_handler():
+  """An explicit raise in an inner try that the inner handlers do not match reaches the OUTER handler: the definitions
+  that are current at the raise reach the reads in that handler (also when the outer try body ends in return)."""
+  import ast
+  import inspect
+  from malt.pyct import anno, cfg, naming, parser, qual_names, transformer
+  from malt.pyct.static_analysis import activity, reaching_definitions
+  m = _load('''
+def f(a, b):
+    x = 1
+    try:
+        try:
+            x = 2
+            if a:
+                raise KeyError()
+            x = 3
+        except ValueError:
+            x = 4
+        return x
+    except KeyError:
+        if b:
+            x = 5
+        return x
+''', 'c06raise')
+  src = inspect.getsource(m.f)
+  node = parser.parse(src)
+  node = qual_names.resolve(node)
+  ctx = transformer.Context(transformer.EntityInfo(name='f', source_code=src, source_file='x', future_features=(), namespace={}),
+                            naming.Namer({}), None)
+  node = activity.resolve(node, ctx, None)
+  graphs = cfg.build(node)
+  node = reaching_definitions.resolve(node, ctx, graphs)
+  store2 = read_h = None
+  for n in ast.walk(node):
+    if isinstance(n, ast.Name) and n.id == 'x':
+      if isinstance(n.ctx, ast.Store) and n.lineno == 5:
+        store2 = n
+      if isinstance(n.ctx, ast.Load) and n.lineno == 15:
+        read_h = n
+  if store2 is None or read_h is None:
+    return 'witness program not recognised'
+  d_store = set(map(id, anno.getanno(store2, anno.Static.DEFINITIONS, ())))
+  d_read = set(map(id, anno.getanno(read_h, anno.Static.DEFINITIONS, ())))
+  if not (d_store & d_read):
+    return ('`x = 2` is current when KeyError is raised (f(True, False) = %r) but its definition does not reach the read of x '
+            'in the outer handler (%d definitions reach it)' % (m.f(True, False), len(d_read)))
+
+
+@witness('C16-do-not-convert-region-is-disabled-for-artifacts-too', ['C16'])
+def c16_dnc_artifacts():
+  """do_not_convert(f) reports DISABLED inside the call for every callable, also when f is already an AutoGraph
+  artifact (a convert(user_requested=False) wrapper, an inner function returned by converted code), and restores the
+  caller's context object afterwards."""
+  import malt
+  m = _load('''
+import malt
+LOG = []
+
+def probe():
+  LOG.append(malt.control_status_ctx().status.name)
+
+def body(x):
+  if x > 0:
+    x = x + 1
+  probe()
+  return x
+
+def make_inner():
+  def inner(x):
+    if x > 0:
+      x = x + 1
+    probe()
+    return x
+  return inner
+''', 'c16dnc')
+  dnc = malt.experimental.do_not_convert
+  cases = [('plain function', dnc(m.body))]
+  for rec in (False, True):
+    cases.append(('convert(recursive=%s, user_requested=False) wrapper' % rec,
+                  dnc(malt.convert(recursive=rec, user_requested=False)(m.body))))
+  cases.append(('inner function returned by converted code', dnc(malt.convert(recursive=True)(m.make_inner)())))
+  for label, fn in cases:
+    del m.LOG[:]
+    before = malt.control_status_ctx()
+    fn(1)
+    if malt.control_status_ctx() is not before:
+      return 'do_not_convert(%s): the context object after the call is not the one before it' % label
+    if m.LOG != ['DISABLED']:
+      return 'do_not_convert(%s): status seen inside = %s, expected DISABLED' % (label, m.LOG)
+
+
+@witness('C19-types-cross-break-and-continue', ['C19'])
+def c19_jump_nodes():
+  """A type that reaches a join only along a path through break / continue is in the inferred set of the join (the
+  walk must revisit the successors of jump nodes when their state widens)."""
+  import ast
+  import inspect
+  from malt.pyct import anno, cfg, naming, parser, qual_names, transformer
+  from malt.pyct.static_analysis import activity, reaching_definitions, reaching_fndefs, type_inference
+  m = _load('''
+def f(n):
+  x = 1
+  z = 0
+  i = 0
+  while i < n:
+    z = x
+    if i == 1:
+      break
+    z = 0
+    x = 1.0
+    i = i + 1
+  return z
+''', 'c19jump')
+
+  class R(type_inference.Resolver):
+    def res_value(self, ns, value):
+      return {type(value)}
+    def res_arg(self, ns, types_ns, f_name, name, type_anno, f_is_local):
+      return {int}
+    def res_binop(self, ns, types_ns, node, left, right):
+      if left == {int} and right == {int}:
+        return {int}
+      return None
+    def res_compare(self, ns, types_ns, node, left, right):
+      return {bool}
+  src = inspect.getsource(m.f)
+  node = parser.parse(src)
+  node = qual_names.resolve(node)
+  ctx = transformer.Context(transformer.EntityInfo(name='f', source_code=src, source_file='x', future_features=(), namespace={}),
+                            naming.Namer({}), None)
+  node = activity.resolve(node, ctx, None)
+  graphs = cfg.build(node)
+  node = reaching_definitions.resolve(node, ctx, graphs)
+  node = reaching_fndefs.resolve(node, ctx, graphs)
+  node = type_inference.resolve(node, ctx, graphs, R())
+  ret = [n for n in ast.walk(node) if isinstance(n, ast.Return)][0]
+  types = anno.getanno(ret.value, anno.Static.TYPES, None)
+  got = type(m.f(3))
+  if types is not None and got not in types:
+    return 'f(3) returns a %s but the types inferred for the returned name are %s' % (got.__name__, sorted(t.__name__ for t in types))
+
+
+@witness('C17-to_code-shows-the-generated-module-for-wrapped-functions', ['C17'])
+def c17_to_code_wrapped():
+  """to_code returns the text of the module that was loaded for to_graph also for a functools.wraps-style wrapper
+  (inspect.getsource follows __wrapped__: the converted function must not carry the original's __wrapped__)."""
+  import inspect
+  import malt
+  m = _load('''
+import functools
+
+def logged(fn):
+  @functools.wraps(fn)
+  def wrapper(x):
+    if x:
+      x = x + 1
+    return fn(x)
+  return wrapper
+
+@logged
+def decorated(x):
+  return x * 2
+''', 'c17wrap')
+  g = malt.to_graph(m.decorated)
+  text = malt.to_code(m.decorated)
+  loaded = inspect.getsource(inspect.getmodule(g)) if inspect.getmodule(g) is not None else ''
+  if 'ag__.' not in text:
+    return 'to_code(decorated function) returns text without any operator call (the original source?): %r' % text[:120]
+  if g(1) != m.decorated(1) or g(0) != m.decorated(0):
+    return 'converted wrapper differs from the original'
+  if hasattr(g, '__wrapped__'):
+    return 'the converted function carries __wrapped__, so inspect.getsource shows the wrapped function instead of the generated code'
 
 
 @witness('C10-entry-point-vs-callee-options-do-not-alias', ['C10'])
